@@ -298,7 +298,10 @@ Definition textx_accepted_diffs : list (list N * list N) :=
   map (fun p => (sN (fst p), sN (snd p)))
   [ (* FINDING digit-identifiers: lang.py `ident` = \w+, textx.tx uses ID *)
     ("rule_name", "ID"); ("param_name", "ID"); ("ident", "ID"); ("attribute", "ID");
-    ("obj_ref_rule", "ID"); ("rule_ref", "RuleRef");
+    ("obj_ref_rule", "ID");
+    (* NOTATION rule reference: one regex \w+(\.\w+)* vs builtin-regex | QualifiedIdent (same texts since the
+       textx.tx fixes 0e20cef/54ee7b7; not decidable here, regexes are oracles) *)
+    ("rule_ref", "RuleRef");
     (* FINDING rrel-flags: \+[mp]+: vs '+m:' *)
     ("rrel_expression.0.0", "RRELExpression.0.0");
     (* FINDING rrel-fixed-name: ['n'~attr] is missing in textx.tx *)
